@@ -284,6 +284,85 @@ def run_executor_interrupt(ctx: Ctx):
         shutil.rmtree(tmp, ignore_errors=True)
 
 
+def run_monitor_interrupt(ctx: Ctx):
+    """training monitored with a test set, interrupted while the test-set performance of a step is being evaluated (the step's index is
+    activated already): the saved state must carry that step in its history - one entry per activation - and resuming reaches the
+    uninterrupted result"""
+    from amisc import System
+    rng = ctx.rng
+    tmp = WORK / f'c13_tmp4_{os.getpid()}'
+    shutil.rmtree(tmp, ignore_errors=True); tmp.mkdir(parents=True, exist_ok=True)
+    cwd0 = os.getcwd()
+    orig = System.test_set_performance
+    try:
+        for n in range(ctx.pick(2, 8)):
+            sys_seed = ctx.seed * 2003 + n; np_seed = rng.randint(0, 10 ** 6); K = 5
+
+            def fresh(root):
+                return systems.persist_chain_system(random.Random(sys_seed), ncomp=2, name='cm', root_dir=root, with_alpha=True, costs=False)
+            ref_sys, spec = fresh(None)
+            rs = np.random.RandomState(sys_seed)
+            xt = {str(v): np.asarray(v.denormalize(v.normalize(np.array([sum(v.get_domain()) / 2] * 6))), dtype=float) + 0.1 * (rs.rand(6) - 0.5) * (v.get_domain()[1] - v.get_domain()[0])
+                  for v in ref_sys.inputs()}
+            yt = ref_sys.predict(xt, use_model='best', normalized_inputs=False)
+            test_set = (xt, {k: np.asarray(v) for k, v in yt.items()})
+            with c12.reseeding(np_seed):
+                ref_sys.fit(max_iter=K, num_refine=10, max_tol=-1.0, test_set=test_set, start_test_check=1)
+            ref = c12.full_state(ref_sys)
+            p = rng.randint(1, K - 1)
+            root = tmp / f'd{n}'; root.mkdir()
+            system, _ = fresh(root)
+            case = {'monitor_interruption': n, 'system_seed': sys_seed, 'numpy_seed': np_seed, 'iterations': K, 'interrupted_test_set_evaluation': p}
+            ctx.case(case, nontrivial=True, kind='monitor-interruption')
+            calls = {'n': 0}
+
+            def perf(self_, *a, **k):
+                calls['n'] += 1
+                if calls['n'] == p:
+                    raise Crash(f'test_set_performance #{p}')
+                return orig(self_, *a, **k)
+            System.test_set_performance = perf
+            interrupted = False
+            try:
+                with c12.reseeding(np_seed):
+                    try:
+                        system.fit(max_iter=K, num_refine=10, max_tol=-1.0, test_set=test_set, start_test_check=1)
+                    except Crash:
+                        interrupted = True
+            finally:
+                System.test_set_performance = orig
+            try:
+                if not interrupted:
+                    ctx.count('interruption_not_reached'); continue
+                os.chdir(tmp)
+                try:
+                    l1 = System.load_from_file(system.root_dir / 'surrogates' / 'cm_error.yml')
+                except Exception as e:
+                    ctx.violate('C13:saved-state-does-not-load', f'{type(e).__name__}: {e}', case); continue
+                finally:
+                    os.chdir(cwd0)
+                nact = sum(len(c.active_set) for c in l1.components if c.has_surrogate)
+                if len(l1.train_history) != nact:
+                    ctx.violate('C13:history-length', f'interrupted while the test-set performance of step {p} was evaluated: the saved state has {nact} active indices '
+                                f'but {len(l1.train_history)} history entries (one entry per activation)', case)
+                l1.root_dir = None
+                try:
+                    with c12.reseeding(np_seed):
+                        l1.fit(max_iter=K - l1.refine_level, num_refine=10, max_tol=-1.0, test_set=test_set, start_test_check=1)
+                except Exception as e:
+                    ctx.violate('C13:resume-raises', f'{type(e).__name__}: {e}', case); continue
+                st = c12.full_state(l1)
+                diffs = [d for d in c12.diff_states(ref, st) if d != 'history' or not c12.history_equiv(ref['history'], st['history'])]
+                if diffs:
+                    ctx.violate('C13:resumed-run-differs', f'after an interruption during the test-set evaluation of step {p}, {diffs} differ from the uninterrupted run', case)
+            finally:
+                shutil.rmtree(root, ignore_errors=True)
+    finally:
+        System.test_set_performance = orig
+        os.chdir(cwd0)
+        shutil.rmtree(tmp, ignore_errors=True)
+
+
 def run(ctx: Ctx):
     import_amisc()
     from amisc import System
@@ -433,6 +512,7 @@ def run(ctx: Ctx):
         shutil.rmtree(tmp, ignore_errors=True)
     run_double(ctx)
     run_executor_interrupt(ctx)
+    run_monitor_interrupt(ctx)
     from common import run_model, ModelError
     for (case, real_keys, real_act, real_cand, na_c), mo in zip(fmeta, run_model(flines, shards=8) if flines else []):
         ctx.count('saved_states_compared')
